@@ -22,6 +22,9 @@ var vfC09Extra = [][2]string{
 	{"POLYGON((0 0,20 0,20 20,0 20,0 0),(2 2,8 2,8 8,2 8,2 2),(12 12,18 12,18 18,12 18,12 12),(12 2,18 2,18 8,12 8,12 2),(2 12,8 12,8 18,2 18,2 12))", "MULTIPOINT(5 5,10 10,15 15,15 5,5 15,1 1)"},
 	{"MULTILINESTRING((0 0,0 5),(2 0,2 5),(4 0,4 5),(6 0,6 5),(8 0,8 5),(10 5,10 0))", "LINESTRING(-1 2,12 2)"},
 	{"MULTIPOLYGON(((0 0,2 0,2 2,0 2,0 0)),((4 0,6 0,6 2,4 2,4 0)),((8 0,10 0,10 2,8 2,8 0)),((0 4,2 4,2 6,0 6,0 4)),((4 4,6 4,6 6,4 6,4 4)),((8 4,10 4,10 6,8 6,8 4)))", "POLYGON((1 1,9 1,9 5,1 5,1 1))"},
+	// the middle row crosses the polygon in three pieces (comb), or in pieces separated by a narrow and a wide hole
+	{"POLYGON((0 0,14 0,14 10,12 10,12 2,9 2,9 10,5 10,5 2,2 2,2 10,0 10,0 0))", "POINT(7 5)"},
+	{"POLYGON((0 0,20 0,20 10,0 10,0 0),(2 4,3 4,3 6,2 6,2 4),(6 4,16 4,16 6,6 6,6 4))", "POINT(11 5)"},
 	// a MultiPolygon whose first member has a hole and whose later member sticks out of the first one's hull
 	{"MULTIPOLYGON(((0 0,10 0,10 10,0 10,0 0),(2 2,2 4,4 4,4 2,2 2)),((20 0,30 0,30 12,20 10,20 0)))", "POINT(25 11)"},
 	{"MULTIPOLYGON(((0 0,4 0,4 4,0 4,0 0),(1 1,1 2,2 2,2 1,1 1),(2 2,2 3,3 3,3 2,2 2)),((6 -3,8 -3,8 -1,6 -3)),((-5 5,-3 5,-4 9,-5 5)))", "LINESTRING(-6 0,9 0)"},
